@@ -63,6 +63,8 @@ def gen_configs(ctx, n, threads=(1, 2, 3, 4), ckpts=(1, 2, 3, 7, 0), big=False, 
             # contract V2, excluded by strict causality V2s; needs a non-tick event type >= 1
             c["t0"] |= 2
             c["types"] = max(c["types"], 3)
+            if big:
+                c["thr"] = min(c["thr"], 150)  # the forwards multiply the traffic: keep the traces re-executable within the time limit
         out.append(c)
     return out
 
@@ -126,7 +128,12 @@ def run_one(ctx, mode, cfg, tag, model=True):
         if c[i] != l[i]:
             div = {"line": i + 1, "op": o[i] if i < len(o) else "?", "impl": c[i], "model": l[i]}
             break
-    if div is None and res["outcome"] != "crash" and (len(c) != len(l) or not ok):
+    if not ok and (div is None or div["line"] >= len(l)):
+        # the model driver did not finish (time limit on a very long trace): its output ends in the middle of a line; what was
+        # compared up to there agreed - inconclusive, not a divergence
+        div = None
+        res["driver_incomplete"] = True
+    elif div is None and res["outcome"] != "crash" and len(c) != len(l):
         div = {"line": n + 1, "op": "<length>", "impl": "%d lines" % len(c), "model": "%d lines" % len(l)}
     res["div"] = div
     res["lines"] = n
@@ -544,7 +551,9 @@ def run_peer(ctx, cfg, tag):
             if c[i] != l[i]:
                 res["div"] = {"line": i + 1, "op": o[i][:200], "impl": c[i], "model": l[i]}
                 break
-        if res["div"] is None and res["outcome"] == "ok" and (len(c) != len(l) or not ok):
+        if not ok and (res["div"] is None or res["div"]["line"] >= len(l)):
+            res["div"] = None  # the model driver ran into its time limit on a very long trace: inconclusive
+        elif res["div"] is None and res["outcome"] == "ok" and len(c) != len(l):
             res["div"] = {"line": n + 1, "op": "<length>", "impl": "%d lines" % len(c), "model": "%d lines" % len(l)}
         if res["outcome"] == "ok":
             res["s_fails"] = peer_exactly_once(o, c)[:5]
